@@ -49,10 +49,10 @@ static void labels(Ctx &c, const OrderCase &oc, int b) {
     c.label(size_bucket(oc.sorted.n));
 }
 
-// rounding_only_known: id of a known finding that covers *rounding-level* dependence on the row order.  The two results must
-// then still agree within  c u n ||y||  (c = 2000: calibrated, largest ratio observed in 6000 cases < 100), and only the bitwise comparison is excluded.
+// Regression note: until repo commit e99d2f4 the copying constructors of cpr, cpr_drs and schur_pressure_correction did not sort the
+// rows of their private copy (cpr/cpr_drs: wrong pressure matrix / exceptions; schur: rounding-level dependence).  Witnesses: replay/C17/unsorted-*.case.
 template <class Precond>
-static void compare(Ctx &c, const OrderCase &oc, const typename Precond::params &prm, const std::string &what, const char *rounding_only_known = nullptr) {
+static void compare(Ctx &c, const OrderCase &oc, const typename Precond::params &prm, const std::string &what) {
     auto build = [&](const Csr<double> &A) {
         size_t n = static_cast<size_t>(A.n);
         auto P = std::make_shared<Precond>(std::tie(n, A.ptr, A.col, A.val), prm);
@@ -60,15 +60,6 @@ static void compare(Ctx &c, const OrderCase &oc, const typename Precond::params 
     };
     Applied a = build_and_apply(oc.sorted, oc.probes, build);
     Applied b = build_and_apply(oc.shuffled, oc.probes, build);
-    if (rounding_only_known && oc.changed) {
-        VF_REQUIRE(a.threw == b.threw && a.what == b.what, what << ": rejected for one row order only: \"" << a.what << "\" (sorted) vs \"" << b.what << "\" (shuffled)");
-        long double d = max_rel_diff(a, b), bound = 2000 * c17::U * static_cast<long double>(oc.sorted.n);
-        long double ratio = d / (c17::U * static_cast<long double>(oc.sorted.n));
-        c.label(d == 0 ? "order-diff:none" : ratio <= 1 ? "order-diff<=u*n" : ratio <= 10 ? "order-diff<=10u*n" : ratio <= 100 ? "order-diff<=100u*n" : "order-diff>100u*n");
-        VF_REQUIRE(d <= bound, what << ": apply() built from shuffled rows differs from the one built from sorted rows by " << static_cast<double>(d) << " (relative), far beyond summation-order rounding ("
-                   << static_cast<double>(bound) << ")");
-        if (c.known(rounding_only_known)) return;
-    }
     require_bitwise_equal(c, a, b, what);
 }
 
@@ -80,9 +71,6 @@ static void prop_cpr(Tape &t, Ctx &c) {
            << " changed=" << oc.changed << " A(shuffled)=" << dump_small(oc.shuffled, 8);
     labels(c, oc, b);
     c.label(std::string("cpr:sprecond=") + (sk == 0 ? "spai0" : sk == 1 ? "ilu0" : "damped_jacobi"));
-    // Known finding: the copying constructor does not sort the rows of its private copy, although first_scalar_pass()/init()
-    // merge the B rows of a cell by ascending column (and hand the unsorted copy to the global preconditioner).
-    if (oc.changed && c.known("F-unsorted-cpr")) return;
     if (sk == 0) { typedef amgcl::preconditioner::cpr<PAmg, SSpai0> P; P::params p; p.block_size = b; p.pprecond.coarse_enough = ce; compare<P>(c, oc, p, "cpr<amg,spai0>"); }
     else if (sk == 1) { typedef amgcl::preconditioner::cpr<PAmg, SIlu0> P; P::params p; p.block_size = b; p.pprecond.coarse_enough = ce; compare<P>(c, oc, p, "cpr<amg,ilu0>"); }
     else { typedef amgcl::preconditioner::cpr<PAmg, SJacobi> P; P::params p; p.block_size = b; p.pprecond.coarse_enough = ce; compare<P>(c, oc, p, "cpr<amg,damped_jacobi>"); }
@@ -100,7 +88,6 @@ static void prop_cpr_drs(Tape &t, Ctx &c) {
            << " weights=" << weights << " changed=" << oc.changed << " A(shuffled)=" << dump_small(oc.shuffled, 8);
     labels(c, oc, b);
     c.label(std::string("cpr_drs:sprecond=") + (sk == 0 ? "spai0" : "ilu0"));
-    if (oc.changed && c.known("F-unsorted-cpr_drs")) return;
     if (sk == 0) { typedef amgcl::preconditioner::cpr_drs<PAmg, SSpai0> P; P::params p; p.block_size = b; p.pprecond.coarse_enough = ce; p.eps_dd = eps_dd; p.eps_ps = eps_ps; p.weights = w; compare<P>(c, oc, p, "cpr_drs<amg,spai0>"); }
     else { typedef amgcl::preconditioner::cpr_drs<PAmg, SIlu0> P; P::params p; p.block_size = b; p.pprecond.coarse_enough = ce; p.eps_dd = eps_dd; p.eps_ps = eps_ps; p.weights = w; compare<P>(c, oc, p, "cpr_drs<amg,ilu0>"); }
 }
@@ -121,19 +108,17 @@ static void prop_schur(Tape &t, Ctx &c) {
            << " usolver=" << (uk ? "ilu0" : "spai0") << " changed=" << oc.changed << " A(shuffled)=" << dump_small(oc.shuffled, 8);
     labels(c, oc, b);
     c.label("schur:type=" + std::to_string(type)); c.label("schur:adjust_p=" + std::to_string(adjust_p)); c.label(mk == 0 ? "schur:mask=interleaved" : "schur:mask=contiguous");
-    // Known finding F-unsorted-schur: the private copy is not sorted, so Kup/Kpu/SIMPLEC sums run in the user's order and
-    // apply() depends on it in the last bits (never beyond rounding: asserted in compare()).
     typedef amgcl::make_solver<PAmg, amgcl::solver::preonly<DB>> PSolver;
     if (uk == 0) {
         typedef amgcl::make_solver<SSpai0, amgcl::solver::preonly<DB>> USolver;
         typedef amgcl::preconditioner::schur_pressure_correction<USolver, PSolver> P;
         P::params p; p.pmask = pm; p.type = type; p.adjust_p = adjust_p; p.approx_schur = approx; p.simplec_dia = simplec; p.psolver.precond.coarse_enough = 6;
-        compare<P>(c, oc, p, "schur<spai0,amg>", "F-unsorted-schur");
+        compare<P>(c, oc, p, "schur<spai0,amg>");
     } else {
         typedef amgcl::make_solver<SIlu0, amgcl::solver::preonly<DB>> USolver;
         typedef amgcl::preconditioner::schur_pressure_correction<USolver, PSolver> P;
         P::params p; p.pmask = pm; p.type = type; p.adjust_p = adjust_p; p.approx_schur = approx; p.simplec_dia = simplec; p.psolver.precond.coarse_enough = 6;
-        compare<P>(c, oc, p, "schur<ilu0,amg>", "F-unsorted-schur");
+        compare<P>(c, oc, p, "schur<ilu0,amg>");
     }
 }
 
